@@ -33,7 +33,9 @@ func (c *libCtx) pair(v *vval.Val) (proto.Message, *dynamicpb.Message, bool) {
 }
 
 func (c *libCtx) view(m proto.Message) string {
-	return vval.RepNorm(c.t.S, 0, c.t.B.FromMessage(0, m)).String()
+	// Normalize: a nil list element / map value / oneof payload reads as an empty message, a typed-nil
+	// oneof wrapper as an unset oneof (no effect on junk-free values beyond nil-vs-empty, which RepNorm erases)
+	return vval.RepNorm(c.t.S, 0, vval.Normalize(c.t.S, 0, c.t.B.FromMessage(0, m))).String()
 }
 func (c *libCtx) canon(m proto.Message) string {
 	return vval.Canon(c.t.S, 0, c.t.B.FromMessage(0, m)).String()
@@ -71,12 +73,25 @@ func libPass(b *tbuf, t *Target, r *vschema.Rand, en []int32, reached []*vval.Va
 	for i := 0; i < n; i++ {
 		vals = append(vals, genInit(r, t, en))
 	}
+	for i := 0; i < n/3+1; i++ {
+		// hand-built states no decoder produces: nil list elements / map values / oneof payloads, typed-nil wrappers
+		o := &vval.GenOpts{MaxDepth: 2, EnumNums: en, Budget: 40, NilJunk: true}
+		v := o.Message(r, t.S, 0, 0)
+		if !blobTooLong(v) {
+			vals = append(vals, v)
+		}
+	}
 	nRandom := len(vals)
 	vals = append(vals, reached...)
 	for i, v := range vals {
-		if hasJunk(S, 0, v) || !utf8ok(S, 0, v) || hasSNaN32(S, 0, v) {
+		if !utf8ok(S, 0, v) || hasSNaN32(S, 0, v) {
 			b.Count("lib_value_skipped")
 			continue
+		}
+		if hasJunk(S, 0, v) {
+			// nil list elements / map values / oneof payloads, typed-nil wrappers: the library algorithms
+			// must see them as the reference sees the value that the wire transports (C09 + C10)
+			b.Count("lib_cases_with_nil_junk")
 		}
 		src := "random"
 		if i >= nRandom {
